@@ -108,12 +108,19 @@ def item_text(it, rend):
     return alts[k - 1] if 0 < k <= len(alts) else it["item"]
 
 
-def crate_text(items, rend=None, macros_file=None, macro_pad=0):
-    """Returns (source text, [(first line, last line, item id)], text of the macros file or None).
+def crate_text(items, rend=None, macros_file=None, macro_pad=0, inc_prefix=None):
+    """Returns (source text, [(file or None, first line, last line, item id)], text of the macros file or None,
+    {include file: text}).
     Items of kind `macro` are produced by a `macro_rules!` that lives in a *second file*: their tokens mix
-    spans of two files, whose line numbers the variant moves independently (`macro_pad` leading blank lines)."""
+    spans of two files, whose line numbers the variant moves independently (`macro_pad` leading blank lines).
+    Items listed in rend["include"] sit in files of their own and reach their module through `include!`.
+    rend["style"] rewrites the surroundings without touching a token: CRLF line ends, tabs for the
+    indentation, a byte-order mark."""
+    rend = rend or {}
+    style = rend.get("style", "")
+    ind = "\t" if "tabs" in style else "    "
     # a leading comment of seeded length shifts every byte offset in the file
-    L = ["#![allow(warnings)] //" + "x" * ((rend or {}).get("file_pad", 0))]
+    L = ["#![allow(warnings)] //" + "x" * rend.get("file_pad", 0)]
     macs = [it for it in items if it.get("kind") == "macro"]
     mtext = None
     if macs:
@@ -123,15 +130,32 @@ def crate_text(items, rend=None, macros_file=None, macro_pad=0):
             M.append("macro_rules! mk_%d { %s }" % (it["id"], it["macro"]))
         mtext = "\n".join(M) + "\n"
     ranges = []
+    incs = {}
+    included = set(rend.get("include", ())) if inc_prefix else set()
     for it in items:
         first = len(L) + 1
         L.append("mod case_%d {" % it["id"])
-        if it.get("kind") != "macro":
-            L.append("    #[derive(derive_more::%s)]" % it["derive"])
-        L.extend(("    " + item_text(it, rend)).split("\n"))
+        if it["id"] in included and it.get("kind") != "macro":
+            f = "%s_%d.rs" % (inc_prefix, it["id"])
+            body = ["//" + "y" * (it["id"] % 7)] * (it["id"] % 5) + ["#[derive(derive_more::%s)]" % it["derive"]] + item_text(it, rend).split("\n")
+            incs[f] = "\n".join(body) + "\n"
+            L.append('%sinclude!("%s");' % (ind, f))
+            ranges.append((f, 1, len(body) + 1, it["id"]))
+        else:
+            if it.get("kind") != "macro":
+                L.append(ind + "#[derive(derive_more::%s)]" % it["derive"])
+            L.extend((ind + item_text(it, rend)).split("\n"))
         L.append("}")
-        ranges.append((first, len(L), it["id"]))
-    return "\n".join(L) + "\n", ranges, mtext
+        ranges.append((None, first, len(L), it["id"]))
+    nl = "\r\n" if "crlf" in style else "\n"
+    text = nl.join(L) + nl
+    if "crlf" in style:
+        incs = {f: t.replace("\n", "\r\n") for f, t in incs.items()}
+        if mtext is not None:
+            mtext = mtext.replace("\n", "\r\n")
+    if "bom" in style:
+        text = "\ufeff" + text
+    return text, ranges, mtext, incs
 
 
 def run_rustc(tag, items, entropy, junk, deps, rlib, rend=None):
@@ -139,18 +163,20 @@ def run_rustc(tag, items, entropy, junk, deps, rlib, rend=None):
     src = os.path.join(WORK, "case_%s.rs" % tag)
     mfile = os.path.join(WORK, "macros_%s.rs" % tag)
     pad = (rend or {}).get("macro_pad", 0)
-    text, ranges, mtext = crate_text(items, rend, mfile, pad)
-    open(src, "w").write(text)
+    text, ranges, mtext, incs = crate_text(items, rend, mfile, pad, os.path.join(WORK, "inc_%s" % tag))
+    open(src, "w", newline="").write(text)
     if mtext is not None:
-        open(mfile, "w").write(mtext)
+        open(mfile, "w", newline="").write(mtext)
+    for f, t in incs.items():
+        open(f, "w", newline="").write(t)
     env = {"PATH": os.environ.get("PATH", "/usr/bin:/bin"), "HOME": os.environ.get("HOME", "/root"),
            "LD_PRELOAD": SHIM, "VERIF_ENTROPY_SEED": str(entropy)}
     for k in ("RUSTUP_HOME", "CARGO_HOME", "RUSTUP_TOOLCHAIN"):
         if k in os.environ:
             env[k] = os.environ[k]
     env.update(junk)
-    cmd = ["setarch", platform.machine(), "-R", "rustc", "+nightly", "--edition", "2021", "-Zunpretty=expanded", "--error-format=json", "--crate-type", "lib",
-           "--crate-name", "a3case", "-L", "dependency=" + deps, "--extern", "derive_more=" + rlib, src]
+    cmd = ["setarch", platform.machine(), "-R", "rustc", "+nightly", "--edition", (rend or {}).get("edition", "2021"), "-Zunpretty=expanded", "--error-format=json", "--crate-type", "lib",
+           "--crate-name", (rend or {}).get("crate_name", "a3case"), "-L", "dependency=" + deps, "--extern", "derive_more=" + rlib, src]
     p = subprocess.run(cmd, env=env, stdout=subprocess.PIPE, stderr=subprocess.PIPE, text=True)
     out = p.stdout
     mods = {}
@@ -172,7 +198,7 @@ def run_rustc(tag, items, entropy, junk, deps, rlib, rend=None):
                 mods[cur] = "\n".join(buf)
                 cur = None
     # what the user sees of an expansion is its tokens *and* its diagnostics: rustc's errors are attributed
-    # to the module whose lines their primary span falls in (4 lines per module, see crate_text) and
+    # to the module whose lines their primary span falls in (by file and line, see crate_text) and
     # appended to that module's text, so that a diagnostic that changes with history is a divergence too
     panics = diags = 0
     per_mod = {}
@@ -204,7 +230,9 @@ def run_rustc(tag, items, entropy, junk, deps, rlib, rend=None):
         if d.get("code") is not None and not is_panic:
             continue
         ln = sp.get("line_start", 0)
-        owner = [i for (a, b, i) in ranges if a <= ln <= b]
+        fn = sp.get("file_name", "")
+        in_inc = [f for f in incs if os.path.basename(f) == os.path.basename(fn)]
+        owner = [i for (f, a, b, i) in ranges if a <= ln <= b and ((f is None and not in_inc) or (f is not None and f in in_inc))]
         if owner:
             # of a panic only the fact is observed (the statement is about token sequences)
             per_mod.setdefault(owner[0], []).append("derive panicked" if is_panic else "error: %s" % msg)
@@ -215,7 +243,7 @@ def run_rustc(tag, items, entropy, junk, deps, rlib, rend=None):
             mods[i] += "\n// diagnostics: " + " | ".join(sorted(ds))
             raw[i] += "\n// diagnostics: " + " | ".join(sorted(ds))
     run_rustc.last_raw = raw
-    for f in (src, mfile):
+    for f in [src, mfile] + list(incs):
         try:
             os.remove(f)
         except OSError:
@@ -270,6 +298,16 @@ def variant_plan(rng, items, v, env_names=()):
         rend["macro_pad"] = [1, 7, 40, 300, 2000][rng.below(5)]
     if rng.below(2):
         rend["file_pad"] = [1, 9, 40, 75, 700, 900, 9000, 99000][rng.below(8)]
+    # surroundings no token of which belongs to the item: line ends, indentation characters, a byte-order mark,
+    # the crate's name and edition, items reached through include! from files of their own
+    if rng.below(3) == 0:
+        rend["style"] = ["crlf", "tabs", "bom", "crlf+tabs+bom"][rng.below(4)]
+    if rng.below(3) == 0:
+        rend["crate_name"] = ["x", "derive_more_user", "a3case_with_a_rather_long_crate_name_%d" % rng.below(100), "Ünïcrate"][rng.below(3)]
+    if rng.below(3) == 0:
+        rend["edition"] = ["2018", "2024"][rng.below(2)]
+    if rng.below(3) == 0:
+        rend["include"] = [it["id"] for it in order if it.get("kind") != "macro" and rng.below(2)]
     return {"v": v, "order": [it["id"] for it in order], "entropy": entropy, "junk": junk, "rend": rend}
 
 
@@ -311,7 +349,8 @@ def run(tier, seed, sessim_bin, env_names=()):
         bad = [i for i in plan["order"] if mods.get(i) != ref[i]]
         return plan, mods, panics, diags, bad
 
-    res = {"layer": "A3_real_rustc", "items": len(items), "variants": n_variants, "rustc_runs": 2 + len(items), "module_comparisons": 0,
+    res = {"layer": "A3_real_rustc", "items": len(items), "variants": n_variants,
+           "variants_by_surrounding": {k: sum(1 for p in plans if k in p["rend"]) for k in SURROUND}, "rustc_runs": 2 + len(items), "module_comparisons": 0,
            "panics_seen_by_rustc": ref_panics, "diagnostics_seen_by_rustc": ref_diags, "distinct_entropy_seeds": len({p["entropy"] for p in plans}),
            "violations": [], "sample_variant": {k: plans[0][k] for k in ("order", "entropy")} if plans else None}
     divergent = []
@@ -354,6 +393,9 @@ def run(tier, seed, sessim_bin, env_names=()):
     res["run_s"] = time.time() - t0
     res["divergent_variants"] = len(divergent)
     return res
+
+
+SURROUND = ("macro_pad", "file_pad", "style", "crate_name", "edition", "include")
 
 
 def diverges(order, probe, entropy, junk, by_id, ref, deps, rlib, tag="min", rend=None):
@@ -402,16 +444,26 @@ def minimise(seed, plan, probe, by_id, ref, deps, rlib):
             entropy = 0
             steps += 1
     # simpler writing: drop the alternative renderings one at a time (the probe's last)
-    for i in [x for x in list(rend) if x != probe and x not in ("macro_pad", "file_pad")] + ([probe] if probe in rend else []) + [k for k in ("macro_pad", "file_pad") if k in rend]:
+    if "include" in rend:
+        rend["include"] = [i for i in rend["include"] if i in order]
+        if probe in rend["include"] and len(rend["include"]) > 1:
+            cand = dict(rend, include=[probe])
+            b, _ = diverges(order, probe, entropy, junk, by_id, ref, deps, rlib, rend=cand)
+            if b:
+                rend = cand
+                steps += 1
+    for i in [x for x in list(rend) if x != probe and x not in SURROUND] + ([probe] if probe in rend else []) + [k for k in SURROUND if k in rend]:
         cand = {k: v for k, v in rend.items() if k != i}
         b, _ = diverges(order, probe, entropy, junk, by_id, ref, deps, rlib, rend=cand)
         if b:
             rend = cand
             steps += 1
-    rend = {k: v for k, v in rend.items() if k in order or k in ("macro_pad", "file_pad")}
+    rend = {k: v for k, v in rend.items() if k in order or k in SURROUND}
     _, observed = diverges(order, probe, entropy, junk, by_id, ref, deps, rlib, rend=rend)
     it = by_id[probe]
-    why = ("depends on the byte offset of the item in its file (span positions)" if len(order) == 1 and rend.get("file_pad") and probe not in rend and "macro_pad" not in rend else
+    why = ("depends on surroundings that are no part of the item (%s)" % ", ".join("%s=%s" % (k, rend[k]) for k in ("style", "crate_name", "edition", "include") if k in rend)
+           if len(order) == 1 and any(k in rend for k in ("style", "crate_name", "edition", "include")) else
+           "depends on the byte offset of the item in its file (span positions)" if len(order) == 1 and rend.get("file_pad") and probe not in rend and "macro_pad" not in rend else
            "depends on where the `macro_rules!` that produces part of the item sits in its own file (line numbers of two files compared)" if len(order) == 1 and "macro_pad" in rend else
            "depends on how the item's tokens are written (blanks, line breaks, comments: span positions / source text)" if len(order) == 1 and probe in rend else
            "depends on the process's entropy (hash seeds)" if len(order) == 1 and entropy != 0 else
@@ -431,7 +483,7 @@ def replay(path):
     by_id = {it["id"]: it for it in rp["items"]}
     probe = rp["probe"]
     alone, _, _, _, _ = run_rustc("rp_ref", [by_id[probe]], 0, {}, deps, rlib)
-    rend = {(k if k in ("macro_pad", "file_pad") else int(k)): v for k, v in (rp.get("rend") or {}).items()}
+    rend = {(k if k in SURROUND else int(k)): v for k, v in (rp.get("rend") or {}).items()}
     mods, _, _, _, _ = run_rustc("rp_var", rp["items"], rp["entropy_seed"], rp.get("junk", {}), deps, rlib, rend)
     print(json.dumps({"probe": by_id[probe], "expected_text": alone.get(probe), "observed_text": mods.get(probe)}, indent=1, ensure_ascii=False))
     if alone.get(probe) != mods.get(probe):
